@@ -4,10 +4,10 @@
    nat, N, positive, Z stay the extracted inductive types. *)
 Require Import ExtrOcamlBasic ExtrOCamlFloats.
 Require Import IVP.model.Lit IVP.model.Ops IVP.model.FloatOps IVP.model.Common IVP.model.SolOut
-               IVP.model.Solve IVP.model.Matrix IVP.model.LU IVP.model.PyLayout.
+               IVP.model.Solve IVP.model.Matrix IVP.model.LU IVP.model.LUc IVP.model.LUcShape IVP.model.PyLayout.
 Extraction "extract/model.ml" Fops solve_ivp run_method interp_fn sol_eval t_span
   Matrix.get Matrix.set Matrix.identity Matrix.from_vec Matrix.from_storage Matrix.full Matrix.zeros
   Matrix.square Matrix.banded Matrix.diagonal Matrix.lower_triangular Matrix.upper_triangular
   Matrix.addsub Matrix.caddsub Matrix.cmul Matrix.cmul_mut Matrix.is_identity
-  LU.lu_decomp LU.lin_solve
+  LU.lu_decomp LU.lin_solve LUc.lu_decomp_complex LUc.lin_solve_complex LUcShape.lu_decomp_complex_checked
   py_transpose py_status py_success group_columns.
